@@ -166,7 +166,26 @@ def check(ctx, rep):
                 n_setea += 1
                 a0 = n.args[0]
                 ok = isinstance(a0, ast.Constant)
-                if isinstance(a0, ast.Name):
+                if isinstance(a0, ast.Name) and a0.id in f.params:
+                    # a helper's parameter: judged at its call sites (the argument there must be a constant or a configured name)
+                    sites_ok = []
+                    for g in prog.all_functions():
+                        if g.module is not f.module:
+                            continue
+                        for c in ast.walk(g.node):
+                            if isinstance(c, ast.Call) and isinstance(c.func, ast.Attribute) and c.func.attr == f.name:
+                                params = f.params[1:] if f.cls is not None else f.params
+                                idx = params.index(a0.id) if a0.id in params else None
+                                arg = c.args[idx] if idx is not None and idx < len(c.args) else next((k.value for k in c.keywords if k.arg == a0.id), None)
+                                good = isinstance(arg, ast.Constant)
+                                if isinstance(arg, ast.Name):
+                                    for loop in ast.walk(g.node):
+                                        if isinstance(loop, (ast.For, ast.comprehension)) and any(isinstance(e, ast.Name) and e.id == arg.id for e in ast.walk(loop.target)):
+                                            if "eaexts" in norm(loop.iter) or "geteadict()" in norm(loop.iter):
+                                                good = True
+                                sites_ok.append(good)
+                    ok = bool(sites_ok) and all(sites_ok)
+                elif isinstance(a0, ast.Name):
                     # bound by iterating configuration (eaexts.items()) or another entry's block names
                     for loop in ast.walk(f.node):
                         if isinstance(loop, (ast.For, ast.comprehension)) and any(isinstance(e, ast.Name) and e.id == a0.id for e in ast.walk(loop.target)):
